@@ -34,6 +34,11 @@ ASSUMPTIONS = [
 ]
 
 
+RT_HEADER = ('From Coq Require Import NArith ZArith List Bool String. Import ListNotations.\n'
+             'From Y Require Import Prelude Node Tables NodeOps OpsRun Types Recognize Loader Hooks LoadRun Represent ClassRoundTrip.\n'
+             'Open Scope N_scope.\nSet Printing Width 1000000. Set Printing Depth 100000000.\n')
+
+
 def concrete_related(specs, top):
     return [top] + loadcase.all_subclasses(specs, top)
 
@@ -158,6 +163,7 @@ def tie(ctx, model_ok=True):
                     'breaks, NEL/LS, non-BMP, lone surrogate; non-finite floats; dates/datetimes with offsets; paths; shared '
                     'sub-objects); plus every pool string alone, in a list and as key and value; skipped = not unambiguous')}
     terms, info = [], []
+    rt_terms, rt_info = [], []
     skipped = nontriv = 0
     for s in dumpcase.STRINGS:
         res['evaluations'] += 1
@@ -173,6 +179,12 @@ def tie(ctx, model_ok=True):
             text = dumps(v)
         except Exception:      # noqa  (C06 reports dump failures)
             continue
+        try:
+            rt_terms.append('{| rt_oracle := ' + dumpcase.repr_oracle_term(v) + '; rt_specs := ' + model.reg_term()
+                            + '; rt_value := ' + dumpcase.dump_term(v, model) + '; rt_type := ' + model.ty_term(tyspec) + ' |}')
+            rt_info.append(show(v)[:200])
+        except Exception:      # noqa
+            pass
         t0 = time.time()
         c = loadcase.run_case(model.specs, tyspec, text, model=model)
         slow = time.time() - t0 > 0.25         # recognition is exponential in nesting depth x hierarchy width: judged, not modelled
@@ -200,6 +212,14 @@ def tie(ctx, model_ok=True):
             res['samples'].append({'value': show(v)[:200], 'text': text[:200]})
     res['distinct_nontrivial'] = nontriv
     res['skipped_ambiguous'] = skipped
+    # how many generated cases fall under C05_roundtrip_classes (flat registry, well-typed value), and the theorem's
+    # conclusion re-checked there by evaluation of the model
+    rep = nodeops.eval_shards('C05rt', rt_terms, per_shard=150, header=RT_HEADER, fn='rt_report', ctype='rtcase') if rt_terms else []
+    inside = [x for x in rep if x % 1000000 == x]
+    contra = [x % 1000000 for x in rep if x >= 1000000]
+    res['distribution'] = {'in_flat_fragment_of_theorem': len(inside) + len(contra), 'cases_offered': len(rt_terms)}
+    for b in contra[:5]:
+        res['disagreements'].append({'kind': 'C05-class-roundtrip-theorem-vs-evaluation', 'value': rt_info[b]})
     bad = loadcase.eval_cases('C05', terms)
     res['n_disagreements'] = len(bad)
     for b in bad[:20]:
